@@ -295,7 +295,25 @@ def segOfRaw : String × List Rat → Option PSeg
   | ("m", [x, y]) => some (.m (x, y))
   | ("l", [x, y]) => some (.l (x, y))
   | ("h", []) => some .h
+  | ("c", [x1, y1, x2, y2, x3, y3]) => some (.c (x1, y1) (x2, y2) (x3, y3))
+  | ("v", [x2, y2, x3, y3]) => some (.v (x2, y2) (x3, y3))
+  | ("y", [x1, y1, x3, y3]) => some (.y (x1, y1) (x3, y3))
   | _ => none
+
+/-- The segment `do_m / do_l / do_c / do_v / do_y` append for the float operands `xs`: letter and operand
+order come from the regenerated table `segAppend` (nothing when the operand count is not the method's). -/
+def segOf (k : OpK) (xs : List Rat) : Option PSeg :=
+  match segAppend.lookup k.name with
+  | some (letter, idx) => if xs.length = idx.length then segOfRaw (letter, idx.filterMap (fun i => xs[i]?)) else none
+  | none => none
+
+/-- `do_m l c v y`: every operand must convert (`safe_float`), then the segment is appended. -/
+def doSeg (k : OpK) (args : List Operand) (st : IState) : IState :=
+  match allNums args with
+  | some xs => match segOf k xs with
+    | some s => pushSeg st s
+    | none => st
+  | none => st
 
 /-- `self.device.paint_path(self.graphicstate, stroke, fill, evenodd, self.curpath); self.curpath = []` -/
 def doPaint (st : IState) (stroke fill evenodd : Bool) : IState :=
@@ -353,21 +371,11 @@ def doSetColourN (st : IState) (stroking : Bool) : Except Err IState :=
 /-- The body of `do_<k>` applied to exactly `nargs` operands. -/
 def call (k : OpK) (args : List Operand) (st : IState) : Except Err IState :=
   match k with
-  | .m => match allNums args with
-    | some [x, y] => .ok (pushSeg st (.m (x, y)))
-    | _ => .ok st
-  | .l => match allNums args with
-    | some [x, y] => .ok (pushSeg st (.l (x, y)))
-    | _ => .ok st
-  | .c => match allNums args with
-    | some [x1, y1, x2, y2, x3, y3] => .ok (pushSeg st (.c (x1, y1) (x2, y2) (x3, y3)))
-    | _ => .ok st
-  | .v => match allNums args with
-    | some [x2, y2, x3, y3] => .ok (pushSeg st (.v (x2, y2) (x3, y3)))
-    | _ => .ok st
-  | .y => match allNums args with
-    | some [x1, y1, x3, y3] => .ok (pushSeg st (.y (x1, y1) (x3, y3)))
-    | _ => .ok st
+  | .m => .ok (doSeg .m args st)
+  | .l => .ok (doSeg .l args st)
+  | .c => .ok (doSeg .c args st)
+  | .v => .ok (doSeg .v args st)
+  | .y => .ok (doSeg .y args st)
   | .h => .ok (doH st)
   | .re => match allNums args with
     | some [x, y, w, h] => .ok { st with curpath := st.curpath ++ (rePath x y w h).filterMap segOfRaw }
@@ -410,7 +418,9 @@ def call (k : OpK) (args : List Operand) (st : IState) : Except Err IState :=
     | (ctm, gs) :: rest => .ok { st with ctm := ctm, gs := gs, gstack := rest }
     | [] => .ok st
   | .cm => match allNums args with
-    | some [a, b, c, d, e, f] => .ok { st with ctm := mult_matrix (a, b, c, d, e, f) st.ctm }
+    | some [a, b, c, d, e, f] =>
+      .ok { st with ctm := if cmPremultiplies then mult_matrix (a, b, c, d, e, f) st.ctm
+                           else mult_matrix st.ctm (a, b, c, d, e, f) }
     | _ => .ok st
   | .other _ => .ok st
 
